@@ -448,8 +448,7 @@ def wrapper_facts(mod):
     ve = raw.get("vp_elev", "?")
     ve_c = ve.replace(robs, "obs:row").replace(cobs, "obs:col")
     W["velev"] = ve_c
-    if ve_c in ("(raster.values[obs:row, obs:col] + observer_elev)", "raster.values[obs:row, obs:col] + observer_elev"):
-        W["velev"] = "raster.values[obs:row, obs:col] + observer_elev"
+    if ve_c == "float(raster.values[obs:row, obs:col]) + observer_elev":
         roles[ve] = "velev"
     else:
         bad("vp_elev = " + ve_c)
